@@ -124,7 +124,7 @@ def judge(case: Dict, per_variant: List[Dict], vs: List[Dict]) -> CaseResult:
             break
     # re-seeding reproduces the episode: episodes come in pairs started by the same reset(seed=s)
     eps = base["episodes"]
-    for k in range(0, len(eps) - 1, 2):
+    for k in range(0, len(eps) - 1, 2) if case["src"] != "folder" else []:
         if eps[k]["start"] == eps[k + 1]["start"] and len(eps[k]["steps"]) == len(eps[k + 1]["steps"]):
             d = diff_episode(eps[k], eps[k + 1])
             if d:
@@ -138,7 +138,7 @@ def judge(case: Dict, per_variant: List[Dict], vs: List[Dict]) -> CaseResult:
                     nonidle += 1
     res.nontrivial = nonidle >= 1
     res.label("src:" + case["src"], "scripted_nonidle" if nonidle else "all_idle")
-    if case["src"] == "shipped":
+    if case["src"] in ("shipped", "folder"):
         res.label("file:" + os.path.basename(case["path"]))
     return res
 
@@ -166,7 +166,9 @@ def shipped_case(draw, paths):
     p = draw(st.sampled_from(paths))
     s = draw(st.integers(0, 1000))
     big = "uc7" in p
-    acts = draw(st.lists(st.tuples(st.just("step"), st.integers(0, 10 ** 6)).map(list), min_size=3, max_size=8 if big else 20))
+    slow = "nmap_network_service_recon" in p or "nmap_port_scan" in p  # a /24 x ports scan every step: ~1.5 s per step
+    acts = draw(st.lists(st.tuples(st.just("step"), st.integers(0, 10 ** 6)).map(list), min_size=2 if slow else 3,
+                         max_size=3 if slow else (8 if big else 20)))
     ops = [["reset", s]] + acts + [["reset", s]] + acts
     return {"src": "shipped", "path": p, "max_len": None, "cfg_seed": draw(st.sampled_from([None, 3])), "ops": ops}
 
@@ -180,6 +182,31 @@ def gen_case(draw):
     s = draw(st.integers(0, 1000))
     c["ops"] = [["reset", s]] + acts + [["reset", s]] + acts
     return c
+
+
+@st.composite
+def uc7_long_case(draw):
+    """The threat actors need ~30 quiet steps to get through reconnaissance: blue mostly idles."""
+    p = draw(st.sampled_from(["src/primaite/config/_package_data/uc7_config.yaml",
+                              "src/primaite/config/_package_data/uc7_config_tap003.yaml"]))
+    s = draw(st.integers(0, 1000))
+    k = draw(st.integers(32, 40))
+    acts = [["step", 0] for _ in range(k)]
+    return {"src": "shipped", "path": p, "max_len": None, "cfg_seed": None, "no_logging": True,
+            "ops": [["reset", s]] + acts + [["reset", s]] + acts[:10]}
+
+
+@st.composite
+def folder_case(draw):
+    from ..envdrive import SCHEDULE_FOLDERS
+
+    p = draw(st.sampled_from([f for f in SCHEDULE_FOLDERS if "uc7" not in f]))
+    s = draw(st.integers(0, 1000))
+    ops = []
+    for _ in range(draw(st.integers(2, 5))):  # several episodes: the schedule advances with every reset
+        ops.append(["reset", s])
+        ops.extend(["step", draw(st.integers(0, 10 ** 6))] for _ in range(draw(st.integers(2, 6))))
+    return {"src": "folder", "path": p, "ops": ops}
 
 
 def collect(strategy, n: int, seed: int) -> List[Dict]:
@@ -204,10 +231,13 @@ def worker(ctx: Ctx):
     vs = variants(ctx.tier)
     paths = [p for p in STOCHASTIC_SHIPPED if os.path.exists(os.path.join("/repo", p))]
     if q:
-        paths = [p for p in paths if "uc7_config_tap003" not in p]
-    n_ship, n_gen = (4, 4) if q else (60, 60)
+        paths = [p for p in paths if "uc7_config_tap003" not in p and "nmap_network_service_recon" not in p]
+    n_ship, n_gen = (4, 3) if q else (60, 60)
     cases = collect(shipped_case(paths), n_ship, ctx.wseed * 10) + collect(gen_case(), n_gen, ctx.wseed * 10 + 1)
-    chunk = 8 if q else 12
+    cases += collect(folder_case(), 1 if q else 16, ctx.wseed * 10 + 2)
+    if ctx.idx == 0 or not q:
+        cases += collect(uc7_long_case(), 1 if q else 6, ctx.wseed * 10 + 3)
+    chunk = 12
     for i in range(0, len(cases), chunk):
         part = cases[i:i + chunk]
         outs = run_variants(part, vs, f"w{ctx.idx}-{i}")
